@@ -1,5 +1,6 @@
 import Hive.Proofs.SerixNoPanic
 import Hive.Proofs.SerixEncOrder
+import Hive.Proofs.SerixPrimRT
 /-!
 # C01 (binary serix part) — the codec round-trips every encodable value
 
@@ -187,6 +188,76 @@ example :
       .ok [7, 0xfe, 0xff, 0, 0, 0, 0, 2, 0, 1, 97, 0, 0, 0, 0, 1, 98, 1, 0, 0, 0, 1, 2, 1, 122, 2, 97, 98] ∧
     canon fixtureMixed v ⟨true, false⟩ = .l [.l [.n 7, .i (-2)], .nil,
       .l [.kv (.x [97]) (.x []), .kv (.x [98]) (.x [1])], .l [.x [122], .x [97, 98]]] := by
+  decide
+
+/-! ## One layer below serix: the `Serializer` / `Deserializer` primitive pairs of serializer/serializer.go
+
+Model `Hive/Model/SerixPrim.lean` (the two sticky-error chains call by call; tied to the real chains by the
+harness part `c03/prim`, which also carries the Go round-trip oracle of these pairs). -/
+
+/-- **Every primitive pair round-trips.**  `WriteNum/ReadNum` (every width, signed or unsigned destination),
+`WriteBool/ReadBool`, `WriteByte/ReadByte`, `WriteBytes/ReadBytes`, `WriteVariableByteSlice/ReadVariableByteSlice`
+and `WriteString/ReadString` (every prefix width, any bounds), `WriteTime/ReadTime`, `WriteUint256/ReadUint256`,
+object code / `CheckTypePrefix`, `WriteSliceOfByteSlices/ReadSequenceOfObjects` (every rule set, with and
+without validation / sorting): if the write call completes without error having appended `b`, the mirrored read
+call on `b ++ rest` hands back the value written (`WOp.readBack`), advances by exactly `|b|` and stores no
+error — whatever follows, at any offset. -/
+theorem C01_prim_roundtrip (sg : Bool) (op : WOp) (m : ROp) (b : Bytes) (hw : wOp op = .done b none)
+    (hm : op.mirror sg = some m) (hi : op.itemsOk = true) (rest : Bytes) (total off : Nat) :
+    rOp (b ++ rest) total off m = .done (op.readBack sg) b.length none :=
+  prim_roundtrip sg op m b hw hm hi rest total off
+
+/-- What comes back for numbers: a value inside the range of the destination type comes back unchanged. -/
+theorem C01_prim_num_unsigned (w : Nat) (x : Int) (h0 : 0 ≤ x) (h1 : x < (256 : Int) ^ w) :
+    (WOp.num w x).readBack false = some (.int x) := by
+  simp only [WOp.readBack, Bool.false_eq_true, if_false]
+  rw [Int.emod_eq_of_lt h0 h1, Int.toNat_of_nonneg h0]
+
+theorem C01_prim_num_signed (w : Nat) (x : Int) (h1 : -((256 : Int) ^ w) ≤ 2 * x) (h2 : 2 * x < (256 : Int) ^ w) :
+    (WOp.num w x).readBack true = some (.int x) := by
+  simp only [WOp.readBack, if_true, toSigned_emod w x h1 h2]
+
+/-- What comes back for timestamps: the instant saturated into `[0, MaxInt64]` nanoseconds. -/
+theorem C01_prim_time_saturates (x : Int) :
+    (WOp.time x).readBack false = some (.int (if x < 0 then 0 else if x > (maxInt64 : Int) then maxInt64 else x)) := by
+  simp only [WOp.readBack, timeOfU64_of_le (timeToU64_le x)]
+  unfold timeToU64
+  split
+  · rfl
+  · rename_i h
+    have h0 : 0 ≤ x := by omega
+    split
+    · rename_i h2
+      have : x > (maxInt64 : Int) := by omega
+      simp [this]
+    · rename_i h2
+      have : ¬ x > (maxInt64 : Int) := by omega
+      simp [this, Int.toNat_of_nonneg h0]
+
+/-- `WritePayloadLength / ReadPayloadLength`. -/
+theorem C01_prim_payloadLen_roundtrip (n : Nat) (pre rest : Bytes) :
+    ({ src := pre ++ leBytes 4 n ++ rest, off := pre.length } : De).payloadLen =
+      ({ src := pre ++ leBytes 4 n ++ rest, off := pre.length + 4 }, .ok (n % 2 ^ 32)) :=
+  prim_payloadLen_roundtrip n pre rest
+
+/-- **Whole chains.**  A `Serializer` chain that ends without a stored error, read back by the mirrored
+`Deserializer` chain from the produced bytes followed by any `rest`: every call hands back what was written and
+the chain ends, without error, at offset `len(written)` (so `ConsumedAll` holds iff `rest` is empty). -/
+theorem C01_prim_chain_roundtrip (sg : Signs) (ops : List WOp) (s : Ser) (rest : Bytes)
+    (hrun : ({} : Ser).run ops = some s) (he : s.err = none)
+    (hall : ∀ op ∈ ops, (op.mirror (sg op)).isSome = true ∧ op.itemsOk = true) :
+    ({ src := s.buf ++ rest } : De).run (mirrors sg ops) =
+      some ({ src := s.buf ++ rest, off := s.buf.length }, ops.map (fun op => op.readBack (sg op))) :=
+  prim_chain_roundtrip sg ops s rest hrun he hall
+
+/-- The hypotheses are satisfiable by a chain that uses the interesting pairs: an `int16`, a string, an
+auto-sorted validated sequence of two delimitable elements and a timestamp before the epoch — 18 bytes. -/
+example :
+    let ops : List WOp := [.num 2 (-2), .str .u8 0 0 [104, 105],
+      .seq .u16 { lex := true, autoSort := true } true [[1, 9], [0]], .time (-5)]
+    (({} : Ser).run ops).map (fun s => (s.buf, s.err)) =
+        some ([254, 255, 2, 104, 105, 2, 0, 0, 1, 9, 0, 0, 0, 0, 0, 0, 0, 0], none) ∧
+      (∀ op ∈ ops, (op.mirror true).isSome = true ∧ op.itemsOk = true) := by
   decide
 
 end Hive.Serix
